@@ -99,6 +99,11 @@ pub trait Obj {
     fn clone_box(&self) -> Option<Box<dyn Obj>> {
         None
     }
+    /// `Clone::clone_from`: overwrite self with a copy of `src` (same concrete type); false if unsupported
+    fn clone_from_obj(&mut self, src: &dyn Obj) -> bool {
+        false
+    }
+    fn as_any(&self) -> &dyn core::any::Any;
     fn debug(&self) -> Option<DebugInfo> {
         None
     }
@@ -263,6 +268,18 @@ impl<M: EncMode + 'static> Obj for BlkEnc<M> {
     fn debug(&self) -> Option<DebugInfo> {
         Some(dbg_info(&self.0))
     }
+    fn as_any(&self) -> &dyn core::any::Any {
+        self
+    }
+    fn clone_from_obj(&mut self, src: &dyn Obj) -> bool {
+        match src.as_any().downcast_ref::<Self>() {
+            Some(s) => {
+                self.0.clone_from(&s.0);
+                true
+            }
+            None => false,
+        }
+    }
     fn drop_image(self: Box<Self>) -> Vec<u8> {
         image_after_drop(self.0)
     }
@@ -371,6 +388,18 @@ impl<M: DecMode + 'static> Obj for BlkDec<M> {
     fn debug(&self) -> Option<DebugInfo> {
         Some(dbg_info(&self.0))
     }
+    fn as_any(&self) -> &dyn core::any::Any {
+        self
+    }
+    fn clone_from_obj(&mut self, src: &dyn Obj) -> bool {
+        match src.as_any().downcast_ref::<Self>() {
+            Some(s) => {
+                self.0.clone_from(&s.0);
+                true
+            }
+            None => false,
+        }
+    }
     fn drop_image(self: Box<Self>) -> Vec<u8> {
         image_after_drop(self.0)
     }
@@ -478,6 +507,9 @@ pub trait CoreInfo: StreamCipherCore + Sized + Debug + AlgorithmName {
     fn try_clone(&self) -> Option<Self> {
         None
     }
+    fn try_clone_from(&mut self, _src: &Self) -> bool {
+        false
+    }
     const KIND: &'static str; // e.g. "ctr32be", "ofb", "belt"
     fn export_state(&self) -> Vec<u8>;
     fn get_bpos(&self) -> Option<u128> {
@@ -492,6 +524,9 @@ pub trait CoreInfo: StreamCipherCore + Sized + Debug + AlgorithmName {
 pub trait SeekGlue: Sized {
     fn clone_wrapper(&self) -> Option<Self> {
         None
+    }
+    fn clone_from_wrapper(&mut self, _src: &Self) -> bool {
+        false
     }
     fn do_seek(&mut self, _t: &str, _p: u128) -> Res {
         Res::Unsupported
@@ -585,6 +620,15 @@ where
             alg: alg_name::<K>(),
         })
     }
+    fn clone_from_obj(&mut self, src: &dyn Obj) -> bool {
+        match src.as_any().downcast_ref::<Self>() {
+            Some(s) => self.0.clone_from_wrapper(&s.0),
+            None => false,
+        }
+    }
+    fn as_any(&self) -> &dyn core::any::Any {
+        self
+    }
     fn drop_image(self: Box<Self>) -> Vec<u8> {
         image_after_drop(self.0)
     }
@@ -665,6 +709,15 @@ impl<K: CoreInfo + 'static> Obj for CoreObj<K> {
     fn debug(&self) -> Option<DebugInfo> {
         Some(dbg_info(&self.0))
     }
+    fn clone_from_obj(&mut self, src: &dyn Obj) -> bool {
+        match src.as_any().downcast_ref::<Self>() {
+            Some(s) => self.0.try_clone_from(&s.0),
+            None => false,
+        }
+    }
+    fn as_any(&self) -> &dyn core::any::Any {
+        self
+    }
     fn drop_image(self: Box<Self>) -> Vec<u8> {
         image_after_drop(self.0)
     }
@@ -679,6 +732,10 @@ macro_rules! ctr_core_info {
             const KIND: &'static str = $kind;
             fn try_clone(&self) -> Option<Self> {
                 Some(self.clone())
+            }
+            fn try_clone_from(&mut self, src: &Self) -> bool {
+                self.clone_from(src);
+                true
             }
             fn export_state(&self) -> Vec<u8> {
                 self.iv_state().to_vec()
@@ -697,6 +754,10 @@ macro_rules! ctr_core_info {
         {
             fn clone_wrapper(&self) -> Option<Self> {
                 Some(self.clone())
+            }
+            fn clone_from_wrapper(&mut self, src: &Self) -> bool {
+                self.clone_from(src);
+                true
             }
             fn do_seek(&mut self, t: &str, p: u128) -> Res {
                 seek_generic(self, t, p)
@@ -742,6 +803,10 @@ impl<C: Ciph> CoreInfo for ofb::OfbCore<C> {
     fn try_clone(&self) -> Option<Self> {
         Some(self.clone())
     }
+    fn try_clone_from(&mut self, src: &Self) -> bool {
+        self.clone_from(src);
+        true
+    }
     fn export_state(&self) -> Vec<u8> {
         self.iv_state().to_vec()
     }
@@ -749,6 +814,10 @@ impl<C: Ciph> CoreInfo for ofb::OfbCore<C> {
 impl<C: Ciph> SeekGlue for cipher::StreamCipherCoreWrapper<ofb::OfbCore<C>> {
     fn clone_wrapper(&self) -> Option<Self> {
         Some(self.clone())
+    }
+    fn clone_from_wrapper(&mut self, src: &Self) -> bool {
+        self.clone_from(src);
+        true
     }
 }
 
@@ -784,6 +853,18 @@ impl<C: Ciph> Obj for BufE<C> {
     fn debug(&self) -> Option<DebugInfo> {
         Some(dbg_info(&self.0))
     }
+    fn as_any(&self) -> &dyn core::any::Any {
+        self
+    }
+    fn clone_from_obj(&mut self, src: &dyn Obj) -> bool {
+        match src.as_any().downcast_ref::<Self>() {
+            Some(s) => {
+                self.0.clone_from(&s.0);
+                true
+            }
+            None => false,
+        }
+    }
     fn drop_image(self: Box<Self>) -> Vec<u8> {
         image_after_drop(self.0)
     }
@@ -812,6 +893,18 @@ impl<C: Ciph> Obj for BufD<C> {
     }
     fn debug(&self) -> Option<DebugInfo> {
         Some(dbg_info(&self.0))
+    }
+    fn as_any(&self) -> &dyn core::any::Any {
+        self
+    }
+    fn clone_from_obj(&mut self, src: &dyn Obj) -> bool {
+        match src.as_any().downcast_ref::<Self>() {
+            Some(s) => {
+                self.0.clone_from(&s.0);
+                true
+            }
+            None => false,
+        }
     }
     fn drop_image(self: Box<Self>) -> Vec<u8> {
         image_after_drop(self.0)
@@ -872,6 +965,18 @@ impl<T: cts::Encrypt + cts::Decrypt + Clone + 'static> Obj for CtsObj<T> {
             kind: self.kind,
             dec: self.dec,
         }))
+    }
+    fn as_any(&self) -> &dyn core::any::Any {
+        self
+    }
+    fn clone_from_obj(&mut self, src: &dyn Obj) -> bool {
+        match src.as_any().downcast_ref::<Self>() {
+            Some(s) => {
+                self.t.clone_from(&s.t);
+                true
+            }
+            None => false,
+        }
     }
     fn drop_image(self: Box<Self>) -> Vec<u8> {
         image_after_drop(self.t)
